@@ -158,13 +158,16 @@ PROP = Prop(
     driver="ofdrv_sim",
     generate=generate, impl=impl, oracle=oracle, nontrivial=nontrivial, corpus=corpus, canon_equal=canon_equal,
     rule=("rule systems of the C01 generator in which every sub-expression carries an injectable fault with probability 15% (so every node of "
-          "the evaluation tree is a failure point across the stream), plus true cycles (20%) and invalid-period / unknown-variable reads; "
+          "the evaluation tree is a failure point across the stream), plus true cycles (20%), self-dependent (spiral) systems with faults and "
+          "forward reads that close true cross-period cycles (25%), invalid-period / unknown-variable reads, top-level requests whose period is "
+          "given as Period / text / int, and requests whose period text cannot be parsed (they must fail before anything happens); "
           "request sequences that arm a fault, issue 1-3 requests, disarm it, retry, for up to four faults in turn, then all requests again; each "
           "system runs with tracing off and on; compared with the model: error class or value of every request, stack, and the final set of known "
           "values; oracle: errors reach the caller, nothing is recorded for a computation that did not complete, retained values equal their "
-          "meaning, later requests and retries equal the meaning. Non-trivial = at least one failing and one succeeding request."),
+          "meaning, later requests and retries equal the meaning (which error class reaches the caller is pinned by the model only); for spiral "
+          "systems: nothing on the stack / marked after a failed request, every retained value reproducible. Non-trivial = at least one failing and one succeeding request."),
     assumptions=[
-        "failures are those of the DSL: an injected exception in a formula, a circular definition, a dependency on an invalid period or unknown variable",
+        "failures are those of the DSL: an injected exception in a formula, a circular definition, a dependency on an invalid period or unknown variable, an unparsable period argument",
         "values are small integers exactly representable in float32",
     ],
 )
